@@ -59,6 +59,10 @@ func (c *Conn) record(b []byte) {
 	c.Frames = append(c.Frames, Sent{Data: d, Time: vsched.NowNanos(), Gid: vsched.CurrentGid(), Seq: c.seq})
 }
 
+// WriteTo: the switches (Yield, FailAt, OnWrite) are harness state that a harness may set after the session has
+// started its goroutines, hence norace.
+//
+//go:norace
 func (c *Conn) WriteTo(b []byte, addr net.Addr) (int, error) {
 	if c.Yield {
 		vsched.Yield()
